@@ -8,7 +8,7 @@ case kind 'pat':  {'kind': 'pat', 'pat': tree, 'proto': {name: val}, 'proto_even
 val   = ['I', n] | ['F', 'n/d'] | ['R', 'n/d'] | ['S', str] | ['B', bool] | ['SC', scale]
 scale = {'degrees': [int], 'steps': ['n/d', ...], 'oct': 'n/d'}
 tree  = ['bind', kvs] | ['mono', instr, kvs] | ['chain', [tree]] | ['par', [tree]]
-      | ['delta', val, tree] | ['dur', val, tree];   kvs = [[key, ['seq', [val]] | ['rep', val]], ...]
+      | ['delta', val, tree] | ['dur', val, tree] | ['seq', [tree], repeats, offset] | ['pn', tree, repeats];   kvs = [[key, ['seq', [val]] | ['rep', val]], ...]
 """
 import json, logging, os, sys
 from fractions import Fraction
@@ -26,7 +26,7 @@ from sc3.synth.ugens import Out, SinOsc, DC
 from sc3.seq.event import event, Rest
 from sc3.seq.scale import Scale, Tuning
 from sc3.seq.patterns.eventpatterns import Pbind, Pmono, Ppar, Pchain
-from sc3.seq.patterns.filterpatterns import Pdur, Pdelta
+from sc3.seq.patterns.filterpatterns import Pdur, Pdelta, Pn
 from sc3.seq.patterns.listpatterns import Pseq
 
 
@@ -156,6 +156,8 @@ def build(tree):
     if k == 'par': return Ppar(*[build(t) for t in tree[1]])
     if k == 'delta': return Pdelta(dec(tree[1]), build(tree[2]))
     if k == 'dur': return Pdur(dec(tree[1]), build(tree[2]))
+    if k == 'seq': return Pseq([build(t) for t in tree[1]], int(tree[2]), int(tree[3]))
+    if k == 'pn': return Pn(build(tree[1]), int(tree[2]))
     raise ValueError(tree)
 
 
